@@ -7,6 +7,7 @@
 #include <sstream>
 #include <string>
 #include <cstdint>
+#include <cmath>
 #include <gmp.h>
 #include <gmpxx.h>
 #include "gmp++/gmp++.h"
@@ -136,7 +137,28 @@ static std::string run(const std::string& f, const Integer& n, const Integer& d)
     if (f == "op%.i") { int32_t x = n % di; return W(x); }
     if (f == "op%.us") { int16_t x = n % (uint16_t)dul; return W(x); }
     if (f == "op%.Ts") { short ds = (short)dl; short x = n % ds; return W(x); }
-    if (f == "op%.d") { double dd = (double)dl; double x = n % dd; return W((int64_t)x); }
+    // double: the operand is exactly representable (the check generates only such values); the result, an integer-valued
+    // double, is printed exactly through mpz_set_d
+    if (f == "op%.d") { double dd = mpz_get_d(d.get_mpz_const()); double x = n % dd; Integer t; mpz_set_d(t.get_mpz(), x); return S(t); }
+    if (f == "op%.dx") { double dd = ldexp(mpz_get_d(d.get_mpz_const()), -4); double x = n % dd; Integer t; mpz_set_d(t.get_mpz(), x); return S(t); }
+    if (f == "op%.Tf") { float df = (float)dl; float x = n % df; return W((int64_t)x); }
+    // small integer types: promotions / template instantiations
+    if (f == "op/.s") { return S(n / (short)dl); }
+    if (f == "op/.us") { return S(n / (unsigned short)dul); }
+    if (f == "op/.c") { return S(n / (signed char)dl); }
+    if (f == "op/=.Tus") { q = n; q /= (unsigned short)dul; return S(q); }
+    if (f == "op/=.Tc") { q = n; q /= (signed char)dl; return S(q); }
+    if (f == "op/=.Tuc") { q = n; q /= (unsigned char)dul; return S(q); }
+    if (f == "op/=.Td") { q = n; q /= (double)dl; return S(q); }
+    if (f == "op%=.Tus") { r = n; r %= (unsigned short)dul; return S(r); }
+    if (f == "op%=.Tc") { r = n; r %= (signed char)dl; return S(r); }
+    if (f == "op%=.Tuc") { r = n; r %= (unsigned char)dul; return S(r); }
+    if (f == "op%=.Td") { r = n; r %= (double)dl; return S(r); }
+    if (f == "mod.s") { Integer::mod(r, n, (short)dl); return S(r); }
+    if (f == "mod.us") { Integer::mod(r, n, (unsigned short)dul); return S(r); }
+    if (f == "mod.c") { Integer::mod(r, n, (signed char)dl); return S(r); }
+    if (f == "div.s") { Integer::div(q, n, (short)dl); return S(q); }
+    if (f == "div.c") { Integer::div(q, n, (signed char)dl); return S(q); }
     if (f == "w%I.i") { return S((int32_t)i64(n) % d); }
     if (f == "w%I.l") { return S(i64(n) % d); }
     if (f == "w%I.u") { return S((uint32_t)u64(n) % d); }
